@@ -439,6 +439,7 @@ struct H
       else s += "nodata";
 #endif
       s += poolCanon(*v[w], *v[1 - w]);
+      s += linkCanon(*v[w]);
     }
     return s;
   }
